@@ -80,6 +80,20 @@ Theorem c14_bbs_okb_sound : forall bk sz drop s out,
 Proof. exact bbs_okb_sound. Qed.
 Print Assumptions c14_bbs_okb_sound.
 
+Theorem c14_loader_okb_sound : forall lens p i2b b2s order ln out,
+  loader_okb lens p (Some (i2b, b2s)) order ln out = true ->
+  ln = length out /\
+  bbs_spec (tbl i2b) (tbl b2s) (p_drop p) order out /\
+  (forall i j, i < length lens -> j < length lens -> nth i lens 0 <= nth j lens 0 -> tbl i2b i <= tbl i2b j) /\
+  (forall b x y, In b out -> In x b -> In y b -> tbl i2b x = tbl i2b y).
+Proof. exact loader_okb_sound. Qed.
+Print Assumptions c14_loader_okb_sound.
+
+Theorem c14_plain_okb_sound : forall bs drop order out, plain_okb bs drop order out = true ->
+  exists rest, concat out ++ rest = order /\ (rest = [] \/ (drop = true /\ length rest < bs)).
+Proof. exact plain_okb_sound. Qed.
+Print Assumptions c14_plain_okb_sound.
+
 (* ===== clause 2: the loaders ============================================================= *)
 
 (* "report as their length the number of batches they actually yield":
@@ -94,6 +108,14 @@ Theorem c14_loader_len_eq_number_of_batches : forall lens p order out, 1 <= p_bs
   loader_batches lens p order = Ok out -> loader_len lens p order = Ok (length out).
 Proof. exact loader_len_eq. Qed.
 Print Assumptions c14_loader_len_eq_number_of_batches.
+
+(* ... and the value cached at the first call (computed from that epoch's order) stays right for
+   every later epoch presenting the same indices in another order *)
+Theorem c14_cached_len_eq_number_of_batches : forall lens p order order' out, 1 <= p_bs p ->
+  Permutation order order' -> loader_batches lens p order' = Ok out ->
+  loader_len lens p order = Ok (length out).
+Proof. exact loader_cached_len_eq. Qed.
+Print Assumptions c14_cached_len_eq_number_of_batches.
 
 (* "deliver identical batches for identical (seed, epoch)": what epoch k delivers is the same
    whether reached by iterating from epoch 0 or by starting at k; it depends on nothing but the
